@@ -8,8 +8,10 @@ A *group* is one alphabet of Cobweb.tla with
 
 def C(**kw):
     base = dict(NSys=2, NOnce=0, NW=0, NER=0, NEnt=1, NTy=1, NVal=1, OpNames=set(), Modes=set(), MaxOps=2, Budget=3, MaxSteps=2,
-                StepKinds={"ops"}, Features=set(), Defects=set(), Mutants=set(), Scripted=False)
+                StepKinds={"ops"}, Features=set(), Defects=set(), Mutants=set(), Scripted=False, FinalStep="")
     base.update(kw)
+    if "BodyOps" not in kw:
+        base["BodyOps"] = base["MaxOps"]
     return base
 
 ALLMODES = {"persistent", "cleanup", "revokable"}
@@ -98,20 +100,56 @@ GROUPS["world"] = dict(
              init=[["ins", 1, 1, 1], ["ins", 2, 1, 1]]),
 )
 
+# many deliveries of mixed kinds from one run to one (busy) listener of everything: C12 C03 C09
+GROUPS["burst"] = dict(
+    subst=dict(Bundles="B_One", InitOps="Init_Burst"),
+    mc_quick=C(NSys=1, NEnt=2, OpNames={"bc", "eev", "mut", "sysev", "run"}, MaxOps=3, Budget=4, MaxSteps=2, Features={"notake"}),
+    mc_thorough=C(NSys=2, NEnt=2, OpNames={"bc", "eev", "mut", "sysev", "run", "trig", "res"}, MaxOps=4, Budget=5, MaxSteps=2, Features={"notake"}),
+    gen=C(NSys=2, NEnt=2, NVal=2, OpNames={"bc", "eev", "mut", "sysev", "run", "trig", "res", "ins", "probe"}, MaxOps=4, Budget=10, MaxSteps=3,
+          Features={"notake", "err"}),
+    rnd=dict(cfg=dict(kinds=["plain", "plain"], nonce=0, nent=2), alphabet=["bc", "eev", "mut", "sysev", "run", "trig", "res", "ins", "probe"],
+             trigs=["bc"], max_ops=4, budget=12, steps=3, ntypes=1, nvals=2, p_gcpoll=5, p_notake=15,
+             init=[["ins", 1, 1, 1], ["ins", 2, 1, 1], ["reg", "persistent", 1, [["bc", 1], ["eev", 1, 1], ["mut", 1], ["ins", 1], ["res", 1]], 0]]),
+)
+# long trees (dozens of commands in one flush): random programs only, validated by TraceProps and TraceConf
+GROUPS["long"] = dict(
+    rnd=dict(cfg=dict(kinds=["plain", "plain", "plain"], nonce=0, nent=1), alphabet=["run", "sysev", "bc", "eev", "probe"],
+             trigs=["bc"], max_ops=4, budget=70, steps=2, ntypes=1, p_gcpoll=0, rnd_scale=0.2,
+             init=[["reg", "persistent", 1, [["bc", 1], ["eev", 1, 1]], 0], ["reg", "persistent", 2, [["bc", 1], ["anyev", 1]], 0]]),
+)
+
+# exhaustive enumeration ON THE REAL CRATE: every driver sequence of up to Budget table operations (bodies issue nothing),
+# followed by a frame end (GC + poll + clear_trackers); every program is replayed, compared and judged
+ENUMS = {
+    "tabcomp": dict(subst=dict(Bundles="B_Comp1", InitOps="Init_Ins"),
+                    consts=C(NSys=2, NOnce=2, NEnt=1, OpNames={"reg", "revoke", "once", "ins", "rm"}, Modes={"persistent", "revokable"},
+                             MaxOps=3, BodyOps=0, Budget=3, MaxSteps=3, FinalStep="clear")),
+    "tabev": dict(subst=dict(Bundles="B_EvTab", InitOps="NoOps"),
+                  consts=C(NSys=2, NOnce=1, NEnt=1, OpNames={"reg", "revoke", "once", "bc", "eev", "desp"}, Modes={"cleanup", "revokable"},
+                           MaxOps=3, BodyOps=0, Budget=3, MaxSteps=2, FinalStep="clear")),
+    "tabmix": dict(subst=dict(Bundles="B_Mixed", InitOps="Init_Ins"),
+                   consts=C(NSys=2, NOnce=1, NEnt=1, OpNames={"reg", "revoke", "once", "desp", "rm", "res", "despsys"}, Modes={"cleanup", "revokable"},
+                            MaxOps=3, BodyOps=0, Budget=3, MaxSteps=3, FinalStep="clear")),
+}
+PROP_ENUMS = {
+    "C01": ["tabcomp", "tabev"], "C06": ["tabcomp", "tabev"], "C07": ["tabev", "tabmix", "tabcomp"], "C15": ["tabev", "tabcomp"],
+    "C18": ["tabmix"], "C08": ["tabmix"],
+}
+
 # which groups decide which property; the first group is the property's "home"
 PROP_GROUPS = {
     "C01": ["reg", "ev", "comp"],
-    "C02": ["run", "ev"],
-    "C03": ["ev", "mix"],
+    "C02": ["run", "ev", "long"],
+    "C03": ["ev", "mix", "burst"],
     "C04": ["ev", "run"],
-    "C05": ["ev", "reg"],
+    "C05": ["ev", "reg", "mix"],
     "C06": ["reg", "comp"],
     "C07": ["reg", "comp"],
     "C08": ["comp", "mix"],
-    "C09": ["run", "ev"],
+    "C09": ["run", "ev", "burst"],
     "C11": ["run", "reg"],
-    "C12": ["run", "ev"],
-    "C13": ["run", "reg"],
+    "C12": ["run", "burst", "ev"],
+    "C13": ["run", "reg", "long"],
     "C14": ["comp"],
     "C15": ["reg"],
     "C16": ["world"],
@@ -120,8 +158,10 @@ PROP_GROUPS = {
 
 # sizes per tier: simulated behaviours per group, random programs per group, TLC time limits (s)
 TIERS = {
-    "quick": dict(mc="mc_quick", mc_timeout=240, sim_num=250, sim_depth=600, sim_timeout=120, rnd_n=250, tp_timeout=300, tc_timeout=300),
-    "thorough": dict(mc="mc_thorough", mc_timeout=1500, sim_num=3000, sim_depth=900, sim_timeout=900, rnd_n=3000, tp_timeout=1800, tc_timeout=1800),
+    "quick": dict(mc="mc_quick", mc_timeout=240, sim_num=300, sim_depth=600, sim_timeout=120, rnd_n=400, tp_timeout=300, tc_timeout=300,
+                  enum_budget=3, enum_timeout=300),
+    "thorough": dict(mc="mc_thorough", mc_timeout=1500, sim_num=3000, sim_depth=900, sim_timeout=900, rnd_n=4000, tp_timeout=1800, tc_timeout=1800,
+                     enum_budget=4, enum_timeout=1800),
 }
 
 TITLES = {
